@@ -835,6 +835,11 @@ func toASTPosition(pos Position) ast.Position {
 }
 
 func normalizeNumber(s string) string {
+	// The exponent is not part of the digit groups: "1.5E3" has one decimal, not a group of three digits.
+	if i := strings.IndexAny(s, "eE"); i >= 0 {
+		return normalizeNumber(s[:i]) + s[i:]
+	}
+
 	var dotCount, commaCount int
 	var lastDot, lastComma int
 
